@@ -747,7 +747,7 @@ CHECKS = {
     "C05": {"cond", "observe", "crash"},
     "C08": {"observe", "index", "map", "crash"},
     "C10": {"roundtrip", "map", "observe", "crash"},
-    "C12": {"map", "search", "observe", "crash"},
+    "C12": {"map", "search", "pages", "observe", "crash"},
     "C13": {"keys", "map", "observe", "crash"},
     "C15": {"failure", "observe", "map", "crash"},
     "C16": {"restrictions", "crash"},
